@@ -5,6 +5,7 @@ package absnfs
 func init() {
 	vpRegister("VPH_C03_create_existing", VPH_C03_create_existing)
 	vpRegister("VPH_C03_exclusive_retransmit", VPH_C03_exclusive_retransmit)
+	vpRegister("VPH_C03_existing_survives_timeouts", VPH_C03_existing_survives_timeouts)
 }
 
 const (
@@ -136,4 +137,58 @@ func VPH_C03_exclusive_retransmit() {
 	vpAssert(vpImplies(same, st2 == NFS_OK), "retransmission-succeeds")
 	vpKnown("K-C03-create-truncates", true)
 	vpAssert(string(fs.nodes["/d/x"].data) == "data", "data-kept-across-second-create")
+}
+
+// VPH_C03_existing_survives_timeouts: the same CREATE of an existing name, with the request's
+// deadline allowed to pass at any of the points where the server looks at its context (a slow
+// backend): whatever the reply then is, a GUARDED or EXCLUSIVE CREATE leaves the existing object
+// untouched and no mode destroys an existing file's data unless the request sets size.
+func VPH_C03_existing_survives_timeouts() {
+	fs := vpNewFS()
+	fs.addDir("/d")
+	kind := vpChoose("existing", 1, 3)
+	switch kind {
+	case 1:
+		fs.addFileData("/d/x", []byte("hello"))
+	case 2:
+		fs.addDir("/d/x")
+	case 3:
+		fs.addFileData("/d/t", []byte("tgt"))
+		fs.addLink("/d/x", "t")
+	}
+	env := vpServer(fs, ExportOptions{})
+	hd := env.handleFor("/d")
+	how := uint32(vpChoose("how", 0, 2))
+	var s *vpSattr
+	var verf []byte
+	if how == vpExclusive {
+		verf = vpBytes("verf", 8)
+	} else {
+		s = &vpSattr{setMode: true, mode: 0644, setSize: vpBool("set-size"), size: vpU64("size") & 0xff}
+	}
+	env.fs.log = nil
+	before := env.fs.snapshot()
+	vpTimeoutsOn = true // from here on the request's deadline may pass at any look at the context
+	reply := env.call(NFSPROC3_CREATE, vpCreateArgs(hd, "x", how, s, verf))
+	vpTimeoutsOn = false
+	vpAssert(reply != nil, "reply")
+	rd := &vpRd{b: vpReplyBytes(reply)}
+	status := rd.u32()
+	vpObserve("status", status)
+	if status != NFS_OK {
+		vpReach("create-failed")
+	}
+	after := env.fs.snapshot()
+	if how != vpUnchecked {
+		vpAssert(after == before, "guarded-or-exclusive-leaves-existing-object-untouched-even-on-timeout")
+	}
+	if how == vpExclusive || !s.setSize {
+		vpAssert(fs.nodes["/d/x"].exists, "existing-object-still-there")
+		if kind == 1 {
+			vpAssert(string(fs.nodes["/d/x"].data) == "hello", "existing-data-kept-even-on-timeout")
+		}
+		if kind == 3 {
+			vpAssert(string(fs.nodes["/d/t"].data) == "tgt", "symlink-target-data-kept-even-on-timeout")
+		}
+	}
 }
